@@ -224,7 +224,7 @@ class MergerConfig:
             # This node may be a child of one of the registered keys.  That
             # registered key's node will match this node's parent.
             for eval_nc, eval_key in self.keys.items():
-                if node_coord.parent == eval_nc.node:
+                if node_coord.parent is eval_nc.node:
                     merge_key = eval_key
                     break
         if not merge_key and len(data.keys()) > 0:
